@@ -27,7 +27,8 @@ Syntax tree (what the generator makes; SPARQL 1.1 grammar level)
              template positions may also be ["tb", n]: a template blank node (fresh per solution)
 
 Functions
-    gen_dataset(rng, named=True) -> dataset        gen_query(rng, ds, depth, ...) -> query
+    gen_dataset(rng, named=True) -> dataset        gen_query(rng, ds, depth, ..., probe_share=0.0) -> query
+    mutate_dataset(rng, ds) -> dataset             (same graph names, a few triples removed / added / moved)
     to_sparql(query) -> str                        sx_query(query) -> str   (s-expression of the SYNTAX tree)
     in_scope(group) -> set of k                    (SPARQL 1.1 §18.2.1)
     translate_group(group) -> algebra              (SPARQL 1.1 §18.2.2; tuples, see `ALGEBRA` below)
@@ -812,6 +813,25 @@ def gen_dataset(rng, named=True, size=(3, 12)):
     return ds
 
 
+def mutate_dataset(rng, ds):
+    """a changed copy of the dataset: same graph names; triples removed, added, moved between graphs"""
+    def mut(ts, pool):
+        ts = [list(t) for t in ts]
+        for _ in range(rng.randint(1, 2)):
+            if ts and rng.random() < 0.6:
+                ts.pop(rng.randrange(len(ts)))
+        for _ in range(rng.randint(1, 2)):
+            t = rng.choice(pool) if pool and rng.random() < 0.5 else gen_graph(rng, 1)[0]
+            if t not in ts:
+                ts.append(t)
+        return ts
+    everything = [t for ts in [ds["default"]] + [g[1] for g in ds["named"]] for t in ts]
+    out = {"default": mut(ds["default"], everything), "named": [], "union": ds.get("union", False)}
+    for name, ts in ds["named"]:
+        out["named"].append([name, mut(ts, everything) if rng.random() < 0.7 else [list(t) for t in ts]])
+    return out
+
+
 def ds_terms(ds):
     out = []
     for ts in [ds["default"]] + [g[1] for g in ds["named"]]:
@@ -1063,6 +1083,78 @@ class Gen:
         return ["group", _fix_binds(elts)]
 
 
+def _probe_group(g):
+    """scoping probe (see Gen.scope_probe): { OUTER binds ?v . WRAP{ [triple] BINDER(?v) CONSUMER(?v) } }"""
+    r = g.rng
+    ts = [t for t in g.alltriples if t[0][0] != "b" and t[2][0] != "b"] or [[["i", 0], ["i", 10], ["i", 1]]]
+    w = r.choice(ts)
+    pos = r.choice([0, 2, 2])
+    x = w[pos]
+    vs = list(range(g.pool))
+    r.shuffle(vs)
+    v, a, y, z = vs[0], vs[1], vs[2], vs[3]
+    outer = [["v", a], w[1], ["v", v]] if pos == 2 else [["v", v], w[1], ["v", a]]
+    if r.random() < 0.25:  # constant on the other side
+        outer[0 if pos == 2 else 2] = w[0 if pos == 2 else 2]
+    same = [t for t in ts if t[2] == x] or ts
+    w2 = r.choice(same) if r.random() < 0.8 else r.choice(ts)
+    others = [c for c in g.consts if c != x] or g.consts
+    kind = r.choice(["bind", "bind", "bind", "bindconst", "values", "subsel", "tri"])
+    inner = []
+    if kind == "bind":
+        inner.append(["tri", [[["v", y], w2[1], ["v", z]]]])
+        e = ["var", z] if r.random() < 0.75 else r.choice([["cmp", "eq", ["var", z], ["const", x]], ["var", a]])
+        inner.append(["bind", e, v])
+    elif kind == "bindconst":
+        if r.random() < 0.6:
+            inner.append(["tri", [[["v", y], w2[1], ["v", z]]]])
+        inner.append(["bind", ["const", x if r.random() < 0.75 else r.choice(others)], v])
+    elif kind == "values":
+        rows = [[x], [r.choice(others)]]
+        if r.random() < 0.3:
+            rows.append([None])
+        r.shuffle(rows)
+        inner.append(["values", [v], rows])
+        if r.random() < 0.5:
+            inner.append(["tri", [[["v", y], w2[1], ["v", v if r.random() < 0.5 else z]]]])
+    elif kind == "subsel":
+        sub = ["group", [["tri", [[["v", y], w2[1], ["v", v]]]]]]
+        inner.append(["subsel", [v] if r.random() < 0.7 else [v, y], sub])
+    else:
+        inner.append(["tri", [[["v", y], w2[1], ["v", v]]]])
+    c = r.random()
+    subj_ts = [t for t in ts if t[0] == x]
+    w3 = r.choice(subj_ts) if subj_ts and r.random() < 0.7 else r.choice(ts)
+    free = z if kind not in ("bind",) else (a if r.random() < 0.3 else y)
+    if c < 0.45:
+        f = r.choice([["cmp", "eq", ["var", v], ["const", x]], ["cmp", "ne", ["var", v], ["const", r.choice(others)]],
+                      ["bound", v], ["not", ["bound", v]], ["cmp", "ne", ["var", v], ["var", a]],
+                      ["cmp", r.choice(["gt", "ge", "lt"]), ["var", v], ["const", r.choice(g.consts)]]])
+        inner.append(["filter", f])
+    elif c < 0.72:
+        inner.append(["minus", ["group", [["tri", [[["v", v], w3[1], ["v", free] if r.random() < 0.6 else w3[2]]]]]]])
+    else:
+        og = [["tri", [[["v", v], w3[1], ["v", free]]]]]
+        if r.random() < 0.4:
+            og.append(["filter", r.choice([["cmp", "ne", ["var", free], ["var", v]], ["bound", v],
+                                           ["cmp", "eq", ["var", v], ["const", x]]])])
+        inner.append(["opt", ["group", og]])
+    if r.random() < 0.2:
+        r.shuffle(inner)
+    inner = _fix_binds(_merge_tri(inner))
+    wrap = r.random()
+    if wrap < 0.6:
+        nested = ["union", [["group", inner]]]
+    elif wrap < 0.85:
+        nested = ["opt", ["group", inner]]
+    else:
+        nested = ["union", [["group", inner], ["group", [["tri", [[["v", y], w2[1], ["v", v]]]]]]]]
+    elts = [["tri", [outer]], nested]
+    if r.random() < 0.25:
+        elts.append(["filter", ["bound", v]] if r.random() < 0.5 else g.triples({v, a}))
+    return ["group", _merge_tri(elts)]
+
+
 def _fix_binds(elts):
     """BIND's variable must not be in scope in the part of the group before it (§18.2.1 / grammar note 12);
     after a shuffle nothing about BIND changes (only filters move), so just re-check and drop offenders."""
@@ -1074,9 +1166,13 @@ def _fix_binds(elts):
     return out or [["tri", []]]
 
 
-def gen_query(rng, ds, depth=3, forms=("select", "select", "select", "ask", "construct"), features=None):
+def gen_query(rng, ds, depth=3, forms=("select", "select", "select", "ask", "construct"), features=None,
+              probe_share=0.0):
     g = Gen(rng, ds, depth, features=features)
-    where = g.group(depth, first_tri=0.9)
+    if probe_share and rng.random() < probe_share:
+        where = _probe_group(g)   # a variable bound inside a nested group AND by its sibling, with FILTER/MINUS/OPTIONAL on it
+    else:
+        where = g.group(depth, first_tri=0.9)
     form = rng.choice(list(forms))
     q = {"form": form, "proj": None, "where": where, "template": []}
     sc = sorted(in_scope(where))
@@ -1782,3 +1878,110 @@ def alg_in_fragment(a):
 def query_pattern(qsx):
     """pattern of an encoded root: (select pv a) (ask pv a) (construct tpl pv a)"""
     return qsx[-1]
+
+
+# =========================================================================== what rdflib's `_addVars` is expected to compute
+# (used by the known-finding matchers of C04: a known `_vars` imprecision is only accepted when the annotations of the tree
+#  are exactly the ones the CURRENT `_addVars` produces — a change of `_addVars` itself is a new defect, never a known one)
+
+
+def expr_annot_vars(e):
+    """`_vars` rdflib attaches to an expression node: RelationalExpression -> empty, otherwise the variables below"""
+    k = e[0]
+    if k in ("var", "bound"):
+        return {int(e[1])}
+    if k in ("const", "cmp"):
+        return set()
+    if k in ("and", "or"):
+        return expr_annot_vars(e[1]) | expr_annot_vars(e[2])
+    if k == "not":
+        return expr_annot_vars(e[1])
+    if k in ("exists", "nexists"):
+        return _pattern_annot_vars(e[1])
+    raise ValueError(e)
+
+
+def _pattern_annot_vars(a):
+    """variables `_traverseAgg` meets in the (untranslated) parse tree of an EXISTS pattern"""
+    k = a[0]
+    if k == "bgp":
+        return set(_tpsvars(a[1:]))
+    if k == "join":
+        return _pattern_annot_vars(a[2]) | _pattern_annot_vars(a[3])
+    if k in ("union", "minus"):
+        return _pattern_annot_vars(a[1]) | _pattern_annot_vars(a[2])
+    if k == "leftjoin":
+        return _pattern_annot_vars(a[1]) | _pattern_annot_vars(a[2]) | expr_annot_vars(a[3])
+    if k == "filter":
+        return expr_annot_vars(a[1]) | _pattern_annot_vars(a[2])
+    if k == "graph":
+        return set(_pv(a[1])) | _pattern_annot_vars(a[2])
+    if k == "extend":
+        return {int(a[2])} | expr_annot_vars(a[3]) | _pattern_annot_vars(a[1])
+    if k == "values":
+        return set(_ints(a[1]))
+    if k == "project":
+        return set(_ints(a[2])) | _pattern_annot_vars(a[1])
+    raise ValueError(a)
+
+
+def node_vars(a):
+    """the `_vars` the current rdflib (`algebra._addVars`) gives to an algebra node outside EXISTS"""
+    k = a[0]
+    if k == "bgp":
+        return set(_tpsvars(a[1:]))
+    if k == "join":
+        return node_vars(a[2]) | node_vars(a[3])
+    if k == "union":
+        return node_vars(a[1]) | node_vars(a[2])
+    if k == "leftjoin":
+        return node_vars(a[1]) | node_vars(a[2]) | expr_annot_vars(a[3])
+    if k == "filter":
+        return node_vars(a[2])
+    if k == "extend":
+        return node_vars(a[1]) | {int(a[2])}
+    if k == "minus":
+        return node_vars(a[1])
+    if k == "graph":
+        return set(_pv(a[1])) | node_vars(a[2])
+    if k == "values":
+        return set()
+    if k == "project":
+        return node_vars(a[1]) | set(_ints(a[2]))
+    raise ValueError(a)
+
+
+def annotation_mismatches(a, out=None):
+    """consumer nodes (outside EXISTS) whose encoded annotation differs from what `_addVars` is expected to give"""
+    out = [] if out is None else out
+    k = a[0]
+
+    def chk(name, got, want):
+        g = None if got == "none" else set(_ints(got))
+        if g != want:
+            out.append((name, sorted(g) if g is not None else None, sorted(want)))
+    if k in ("bgp", "values"):
+        pass
+    elif k == "join":
+        annotation_mismatches(a[2], out); annotation_mismatches(a[3], out)
+    elif k == "union":
+        annotation_mismatches(a[1], out); annotation_mismatches(a[2], out)
+    elif k == "filter":
+        annotation_mismatches(a[2], out)
+        chk("filter", a[3], node_vars(a[2]))
+    elif k == "extend":
+        annotation_mismatches(a[1], out)
+        chk("extend", a[4], node_vars(a[1]) | {int(a[2])})
+    elif k == "minus":
+        annotation_mismatches(a[1], out); annotation_mismatches(a[2], out)
+        chk("minus.p1", a[3], node_vars(a[1])); chk("minus.p2", a[4], node_vars(a[2]))
+    elif k == "leftjoin":
+        annotation_mismatches(a[1], out); annotation_mismatches(a[2], out)
+        chk("leftjoin.p1", a[4], node_vars(a[1])); chk("leftjoin.p2", a[5], node_vars(a[2]))
+    elif k == "graph":
+        annotation_mismatches(a[2], out)
+    elif k == "project":
+        annotation_mismatches(a[1], out)
+    else:
+        raise ValueError(a)
+    return out
